@@ -7,7 +7,7 @@ for d in sorted(glob.glob('/verif/seeded/*/meta.json')):
     rows.append((m['id'], m['property_broken'], ", ".join(m['caught_by']) or "-", ", ".join(m['missed_by']) or "-",
                  m['needs_to_manifest']))
 txt = "\n## 10. Which checks catch which seeded changes\n\n"
-txt += ("%d changes were written by independent sub-agents in eight rounds, each agent given only the text of one\n"
+txt += ("%d changes were written by independent sub-agents in nine rounds, each agent given only the text of one\n"
         "property and a scratch worktree of /repo (nothing from /verif), and asked for a change that compiles, passes the\n"
         "289 pinned tests and needs something specific to manifest (the third round was told to avoid name collisions and\n"
         "missing copies, and to look for early-stopping fixpoints, incrementally updated caches, asymmetric operands,\n"
@@ -17,7 +17,7 @@ txt += ("%d changes were written by independent sub-agents in eight rounds, each
         "iterator --, `is` versus `==`, `x or default` on falsy values, lazily bound loop variables, drifting symmetrical\n"
         "code paths; the eighth at non-termination and exponential blow-up, non-string values (ints, tuples, falsy values),\n"
         "`__eq__` / `__hash__` of the small value classes, declared-but-unused parts of an object, aliasing of collections\n"
-        "passed by the caller). Each was confirmed here in a scratch worktree of /repo HEAD\n"
+        "passed by the caller; the ninth the same for the other half of the properties). Each was confirmed here in a scratch worktree of /repo HEAD\n"
         "(`tools/seedcheck.sh`: the suite passes with the change, the demonstration fails with it and passes without it)\n"
         "and is kept under `/verif/seeded/<id>/` (`patch.diff`, `demo.py`, `notes.md`, `meta.json` with what was run).\n"
         "Patches that later fix commits had made inapplicable were rebased by hand onto the final tree (`meta.json` says so\n"
@@ -82,6 +82,18 @@ re-verified on the unchanged tree over several `VERIF_SEED` values):
   C08-r8-falsy-start-symbol); tuple-valued terminals -- letters of a product alphabet -- in C13 / C11 / C08
   (C13-r8-terminal-name-by-format); automata with int and str state values as C11's regular operand
   (C11-r8-states-sorted-by-value).
+* Round 9 (eleven of eighteen missed at first -- the round's themes were the harness' weakest side): the builders now
+  hand the constructors the caller's *own* collections (sets of ready-made `State` / `Symbol` / `Variable` / `Terminal`
+  objects, the same set object for `states` and `final_states` when they coincide, body lists, the `Rules` list) and
+  empty them once the object is built, and use tuple bodies in part of the cases (C01-r9-constructor-keeps-caller-sets,
+  C09-r9-..., C12-r9-... / C15-r9-... / C19-r9-production-keeps-body-list); a DFA edit that must be refused with
+  `DuplicateTransitionError` is attempted and the automaton used afterwards (C01-r9-refused-transition-written); the
+  all-int indexed grammars start from the variable `0` (C17-r9-falsy-start-variable); C06 has int symbols, compared with
+  the regular expression's printed spelling (C06-r9-falsy-self-loop-symbol); and the *scaled shapes* of section 4 were
+  introduced for the four changes that keep every answer right but need 2^n / 3^n steps
+  (C09-r9-remove-epsilon-exponential, C12-r9-get-words-per-tree, C15-r9-cyk-node-eq-compares-sons,
+  C17-r9-addrec-ter-product-no-memo). C19-r9-production-keeps-body-list is seen by C12 / C15 / C08 and not by C19: its
+  live object and its fresh replica are built by the same builder, so a construction-time defect is common to both.
 * FX-26 (stale converter index, re-introduced by `./selftest regressions`): scenario template `reintersect` with a
   four-state DFA whose state set re-hashes when a fifth state is added.
 
